@@ -194,6 +194,18 @@ def repo_examples():
         return json.load(f)
 
 
+@functools.lru_cache(maxsize=None)
+def stdlib_files():
+    """18 small modules of CPython 3.12's standard library, vendored under corpus/stdlib (thorough tiers only)."""
+    d = os.path.join(HERE, "corpus", "stdlib")
+    out = {}
+    for f in sorted(os.listdir(d)):
+        if f.endswith(".py"):
+            with open(os.path.join(d, f), encoding="utf-8") as fh:
+                out[f] = fh.read()
+    return out
+
+
 def construct_variants(name):
     """(variant label, text): alone, first of two, last of two, indented 4 and 8."""
     src = CONSTRUCTS[name]
